@@ -26,6 +26,10 @@ CHECKS = {
    technique="explicit enumeration of all API-call histories up to depth 3/4 over a 5-step grid on fresh real objects, plus exhaustive single-fault injection at every invocation index of every user callable, against the single-call reference",
    text="For Tempo (full memory and dkmax=2), MeanFieldTempo (1 and 2 systems), PtTebd every history over {compute(t_j) for all grid targets j, get} up to depth 3 (quick) / 4 (thorough) is replayed on a fresh object and after every operation the dynamics must equal the single-call reference truncated at the furthest target; PtTempo and GibbsTempo: all histories over {compute, fetch} up to depth 3; chain restart at every intermediate step; a transient exception is injected at every invocation index of every wrapped user callable (bound 1; strided pairs in thorough) and compute() repeated: same result or fails again. Exhaustive within depth, grid and fault bound.",
    note="Tolerance 1e-6 at epsrel 1e-10 (separately executed truncated networks are reproducible only to ~10*epsrel). One non-transactional path of MeanFieldTempo is a recorded known finding."),
+ "C16": dict(category="model_checking", design="4/C16",
+   technique="explicit enumeration of all valid export/import/close histories up to depth 4/5 for every process tensor of a 27-member alphabet, executed on real objects and HDF5 files, bitwise comparison with the original plus identical-consumer-results oracle",
+   text="For hand-built rank-3/rank-4 process tensors (with/without dt and transforms, lengths 1,2,4, bond dimensions 4 and 9) and PT-TEMPO process tensors (diagonal, real and complex non-diagonal coupling), every valid history over {export, import as file, import as simple, close} is executed; after every import all metadata, every MPO tensor (raw and transformed), every cap tensor and the bond dimensions must equal the original's, and at the end compute_dynamics, compute_correlations, state_gradient and PtTebd must give identical results. File-backed PT-TEMPO vs in-memory is compared gauge-invariantly. Exhaustive within the alphabet and depth.",
+   note="A rank-3 tensor and its delta expansion are treated as the same MPO tensor (the two classes differ in what get_mpo_tensor(transformed=False) returns). Files are written to /dev/shm or the default temp dir and removed."),
 }
 NOT_YET = "check not built yet in this round (see DESIGN.md sec. 8 build order)"
 
